@@ -36,7 +36,7 @@ COMPONENTS = {
              "cutplace.fields.AbstractFieldFormat.validated and guards", "cutplace.checks.IsUniqueCheck", "cutplace.rowio"],
     "stub": ["recording plug-in classes (third-party code)", "SimFS/SimRaw", "stepping client"],
 }
-PROBES_REQUIRED = ["reader-constructed-before-earlier-runs", "plug-in-folder-imported", "other-cid-used-before-in-same-process", "veto-by-first-of-several-checks", "first-cell-rejected", "blank-only-fixed-cell", "run-stopped-early",
+PROBES_REQUIRED = ["class-defined-after-first-cid", "reader-constructed-before-earlier-runs", "plug-in-folder-imported", "other-cid-used-before-in-same-process", "veto-by-first-of-several-checks", "first-cell-rejected", "blank-only-fixed-cell", "run-stopped-early",
                    "second-run-on-same-cid", "writer-run", "close-twice", "hook-rejection", "guard-rejection:chars",
                    "guard-rejection:length", "end-check-fails", "row-beyond-limit", "header-row", "wrong-item-count",
                    "builtin-isunique-between-recording-checks"]
@@ -73,6 +73,8 @@ def generate(seed, tier):
     spec = {"format": fmt, "header": swarm.choice([0, 0, 1, 2]), "fields": fields, "checks": checks,
             "allowed": swarm.choice([None, [32, 126]])}
     pool = ["ab", "ab", "xa", "ya", "b", "", "a!", "aü", "abcde", " a", "xy"]
+    if fmt == "delimited":
+        pool.append("a\nb")  # a line break inside a cell
     if fmt == "fixed":
         pool += ["   ", "a "]
     tables = {}
@@ -99,6 +101,9 @@ def generate(seed, tier):
                          "close_twice": rng.random() < 0.3, "create": rng.choice(["late", "late", "early"])})
         else:
             runs.append({"kind": "write", "data": data, "close_twice": rng.random() < 0.3})
+    if swarm.random() < 0.15:
+        # a field format class that comes into existence while the process is already using cutplace
+        fields[0]["type"] = "LateQ"
     plugin_folder = swarm.random() < 0.3
     if plugin_folder:
         # some of the classes come from a plug-in folder imported while the process is already running
@@ -225,6 +230,26 @@ class FolderXCheck(plugins._RecordingCheck, checks.AbstractCheck):
 }
 
 
+_LATE = {}
+
+
+def _define_late_class(probes):
+    """A user-defined field format class defined after the first Cid of the process exists."""
+    from cutplace import fields, interface
+
+    from sim import plugins
+
+    interface.Cid()
+    if "class" not in _LATE:
+        def __init__(self, field_name, is_allowed_to_be_empty, length, rule, data_format):
+            fields.AbstractFieldFormat.__init__(self, field_name, is_allowed_to_be_empty, length, rule, data_format,
+                                                empty_value="")
+
+        _LATE["class"] = type("LateQFieldFormat", (plugins._RecordingFieldFormat, fields.AbstractFieldFormat),
+                              {"__init__": __init__})
+    probes.append("class-defined-after-first-cid")
+
+
 def _import_plugin_folder(probes):
     """Write the plug-in modules to a scratch folder (real disk: import_plugins uses glob and the import system)
     and import them through cutplace - after a Cid has already been created in this process."""
@@ -278,12 +303,14 @@ def execute(scenario):
         fs.store(name + ".txt", data.encode("utf-8"))
 
     plugins.set_log(None)
+    if any(field["type"] == "LateQ" for field in spec["fields"]):
+        _define_late_class(probes)
     if scenario.get("plugin_folder"):
         _import_plugin_folder(probes)
     status, oracle_cid = lib.call(lib.load_cid, cid_rows(spec), "oracle-cid")
     if status == "exc":
         types = sorted({field["type"] for field in spec["fields"]} | {check[1] for check in spec["checks"]})
-        raise core.Violation("plug-in-class-not-resolved", [name for name in types if name.startswith("Folder")] or types,
+        raise core.Violation("plug-in-class-not-resolved", [name for name in types if name.startswith(("Folder", "Late"))] or types,
                              "CID %r: %r" % (cid_rows(spec), lib.error_summary(oracle_cid)))
 
     def empty_verdict(index, cell):
@@ -485,6 +512,8 @@ def candidates(scenario):
     if scenario["cid"]["format"] != "delimited":
         yield lib.with_value(scenario, ["cid", "format"], "delimited")
     for index, field in enumerate(fields):
+        if field["type"] == "LateQ":
+            yield lib.with_value(scenario, ["cid", "fields", index, "type"], "RecA")
         if field.get("empty"):
             yield lib.with_value(scenario, ["cid", "fields", index, "empty"], False)
         if field.get("length"):
